@@ -304,6 +304,12 @@ func smallScope(c *vrep.Ctx, prop string) {
 func corpusScale(c *vrep.Ctx, prop string) {
 	t, _ := strconv.ParseFloat(c.Param("t", "0.8"), 64)
 	cl := vEmbeddedCached(t)
+	if c.Param("trace", "off") == "all" {
+		// every phase of every license traced into a sink (diagnostic code on the scoring path)
+		cl = vEmbedded(t)
+		cl.SetTraceConfiguration(&TraceConfiguration{TraceLicenses: "*", TracePhases: "*", Tracer: func(string, ...interface{}) {}})
+		c.Bound("trace_configuration", "all phases, all licenses, no-op tracer")
+	}
 	docs := vDocPool(c.ParamInt("ndocs", c.Pick(48, 431)))
 	if c.Param("docs", "") == "c07findings" {
 		// the documents of the recorded C07 findings (so that the quick tier exhibits them too)
@@ -417,8 +423,9 @@ func corpusScale(c *vrep.Ctx, prop string) {
 // c03Bytes: byte-level inputs (line structure, copyright lines, dates,
 // markers) against small corpora.
 func c03Bytes(c *vrep.Ctx) {
-	// incl. words glued by character references that stand for white space (one input word each)
-	syms := []string{"aa", "bb", "cc", "zqoov", "\n", "\r\n", "-\n", " ", "copyright 2000 foo\n", "2020-01-02\n", "1.", "(c)", "aa-", "aa&#32;bb&nbsp;cc", "aa&#x20;bb", strings.Repeat("x", 4097), strings.Repeat("y", 9000)}
+	// incl. words glued by character references that stand for white space, and a word with control
+	// characters inside (one input word each)
+	syms := []string{"aa", "bb", "cc", "zqoov", "\n", "\r\n", "-\n", " ", "copyright 2000 foo\n", "2020-01-02\n", "1.", "(c)", "aa-", "aa&#32;bb&nbsp;cc", "aa&#x20;bb", "a\x01a\x1bb\x00b\x7fcc", strings.Repeat("x", 4097), strings.Repeat("y", 9000)}
 	maxLen := c.Pick(4, 5)
 	ts := []float64{0.05, 0.5, 0.8, 1.0}
 	corp := []int{0, 1, 8, 9, 11}
